@@ -68,11 +68,11 @@ CHECKS = {
                     ["VxC02_Reentry_Start4", "VxC02_Reentry_Select4", "VxC02_Reentry_From4", "VxC02_Reentry_Join4", "VxC02_Reentry_Where4"], ["C02.reentry_accounted"], extra={"engine_only_asserts": ["C02.reentry_accounted"]}),
     },
     "C03": {
-        "bounds": {"quick": "WHERE-expressions of <= 4 symbolic tokens over a 30-row lexeme table (identifiers, literals, every operator of the documented ladder, parentheses, NOT/IS/NULL/IN/BETWEEN/LIKE/AND/OR) and <= 5 tokens over a 16-row operator table; SELECT with every combination of DISTINCT/WHERE/GROUP BY/HAVING/ORDER BY [DESC]/LIMIT/OFFSET with symbolic names and numbers; chains of <= 2 set operators (UNION/EXCEPT/INTERSECT, ALL symbolic) over 3 selects; join chains of <= 2 joins, each of 9 spellings (JOIN, INNER, LEFT [OUTER], RIGHT [OUTER], FULL [OUTER], CROSS) with symbolic table, optional alias, ON or USING: kind, table, alias and condition per join as written; INSERT with 0-2 listed columns and 1-3 rows of symbolic numbers: every row keeps its own values; UPDATE with 1-3 assignments and DELETE, WHERE symbolic",
+        "bounds": {"quick": "WHERE-expressions of <= 4 symbolic tokens over a 30-row lexeme table (identifiers, literals, every operator of the documented ladder, parentheses, NOT/IS/NULL/IN/BETWEEN/LIKE/AND/OR) and <= 5 tokens over a 16-row operator table; SELECT with every combination of DISTINCT/WHERE/GROUP BY/HAVING/ORDER BY [DESC]/LIMIT/OFFSET with symbolic names and numbers; 12 longer expression shapes (NOT ( a ) ? b, a ? ( b ? c ) ? d, unary minus, double NOT, ...) with every operator slot symbolic over 10 operators; HAVING with and without GROUP BY; chains of <= 2 set operators (UNION/EXCEPT/INTERSECT, ALL symbolic) over 3 selects; join chains of <= 2 joins, each of 9 spellings (JOIN, INNER, LEFT [OUTER], RIGHT [OUTER], FULL [OUTER], CROSS) with symbolic table, optional alias, ON or USING: kind, table, alias and condition per join as written; INSERT with 0-2 listed columns and 1-3 rows of symbolic numbers: every row keeps its own values; UPDATE with 1-3 assignments and DELETE, WHERE symbolic",
                    "thorough": "<= 5 tokens (30-row table), <= 7 tokens (operator table); same clause templates; chains of <= 3 joins"},
         "outside": "expressions longer than the bound; unary minus, JSON operators, ::, CASE, functions, sub-queries inside the expression window (not in the documented ladder harness); joins, CTEs, windows, DML/DDL/MERGE clause structure",
         "assumptions": ["the reference precedence-climbing parser (harness/pkg/sql/parser/c03.go) states the documented ladder; when it rejects, nothing is asserted"],
-        "runs": parruns(["VxC03_Expr4", "VxC03_Ops5", "VxC03_Clauses", "VxC03_SetOps", "VxC03_Joins2", "VxC03_Insert", "VxC03_UpdateDelete"], ["VxC03_Expr5", "VxC03_Ops7", "VxC03_Clauses", "VxC03_SetOps", "VxC03_Joins3", "VxC03_Insert", "VxC03_UpdateDelete"], []),
+        "runs": parruns(["VxC03_Expr4", "VxC03_Ops5", "VxC03_Clauses", "VxC03_SetOps", "VxC03_Joins2", "VxC03_Insert", "VxC03_UpdateDelete", "VxC03_Shapes"], ["VxC03_Shapes", "VxC03_Expr5", "VxC03_Ops7", "VxC03_Clauses", "VxC03_SetOps", "VxC03_Joins3", "VxC03_Insert", "VxC03_UpdateDelete"], []),
     },
     "C06": {
         "bounds": {"quick": "expression shapes: every accepted WHERE-expression of <= 4 symbolic tokens over the 16-row operator table and <= 3 tokens over the 30-row table: AST.SQL() -> real tokenizer -> real parser gives a structurally equal tree and the same text again; 23 statement templates (joins, USING, IS NOT NULL, NOT EXISTS, IN/BETWEEN/LIKE, explicit parentheses, GROUP/HAVING/ORDER/NULLS/LIMIT/OFFSET, window frame with offset, CTE, UNION ALL, CASE, CAST, DISTINCT, INSERT/UPDATE/DELETE, derived table, unary minus, FOR UPDATE) with symbolic two-letter identifiers, plain and double-quoted (all 676 spellings per name on one path; reserved words found by the solver); gosqlx.Format on 6 statements with symbolic options (indent 0..4, keyword case, semicolon, line limit): re-parse equality and idempotence",
@@ -222,7 +222,7 @@ CHECKS = {
         ],
     },
     "C10": {
-        "bounds": {"quick": "metrics kernel: 2 goroutines, each one RecordTokenization with a symbolic query size (0..999) and symbolic error flag, every interleaving at sync/atomic and mutex granularity with at most 2 preemptions; 2 goroutines RecordParse / RecordPoolGet / RecordPoolPut with symbolic statement counts; after quiescence operations, errors, bytes, min, max, statements, pool counters and the error map equal the true values; library state: 2 goroutines each running one of {gosqlx.Parse, metrics.RecordTokenization+GetStats, errors.SuggestKeyword (suggestion cache), ast.SetSpan/GetSpan (span table), pooled tokenizer Get/Tokenize/Put} (symbolic choice), every interleaving at sync/atomic and mutex granularity with at most 2 preemptions: each call returns what it returns alone, and a happens-before monitor (vector clocks over go/Wait, mutex, atomic, Once and Pool edges) finds no unordered conflicting pair among all loads, stores and map operations of the target code",
+        "bounds": {"quick": "metrics kernel: 2 goroutines, each one RecordTokenization with a symbolic query size (0..999) and symbolic error flag, every interleaving at sync/atomic and mutex granularity with at most 2 preemptions; 2 goroutines RecordParse / RecordPoolGet / RecordPoolPut with symbolic statement counts; after quiescence operations, errors, bytes, min, max, statements, pool counters and the error map equal the true values; library state: 2 goroutines each running one of {gosqlx.Parse, metrics.RecordTokenization+GetStats (successful and failing tokenizations, iterating the error breakdown), errors.SuggestKeyword (suggestion cache), ast.SetSpan/GetSpan (span table), pooled tokenizer Get/Tokenize/Put} (symbolic choice), every interleaving at sync/atomic and mutex granularity with at most 2 preemptions: each call returns what it returns alone, and a happens-before monitor (vector clocks over go/Wait, mutex, atomic, Once and Pool edges) finds no unordered conflicting pair among all loads, stores and map operations of the target code",
                    "thorough": "3 goroutines for the metrics kernel; the 2-goroutine mix over all 8 operations (adds Validate, Format, security scan); 3 goroutines over {metrics, suggestion cache, span table}"},
         "outside": "REDUCED CLAIM. Not claimed: N up to 4x cores goroutines and arbitrary mixes (2-3 goroutines, one operation each, from the listed menu); schedules with more than 2 preemptions; races inside intrinsics' own state (sync.Pool internals, strings.Builder, fmt) and on whole-struct copies versus field writes (the monitor tracks the addressed cell); linting and extraction in the mix (their state is per call; isolation of instances is what C08/C09 establish sequentially); the Go memory model beyond sequentially consistent atomics",
         "assumptions": ["sequentially consistent atomics; scheduling points = sync/atomic operations, mutex operations, goroutine exit"],
@@ -236,27 +236,29 @@ CHECKS = {
         ],
     },
     "C11": {
-        "bounds": {"quick": "Parser.ParseContext under a context that turns done at its k-th poll (k symbolic 0..63, both Canceled and DeadlineExceeded, arbitrary start depth 0..49): a 70-token nested statement (CTE, IN list, CASE, nested function calls, JOIN ON, BETWEEN, UNION, EXISTS sub-query), an INSERT ... RETURNING with function calls, and every <= 2-token continuation of SELECT / SELECT a FROM t WHERE over the 45-row expression table; TokenizeContext (poll interval instantiated at 2) on a 9-token input under a cause-carrying context cancelled at its k-th poll, k = 0..7: errors.Is with the context's error, no partial tokens, at most one further poll, uncancelled result equals Tokenize",
+        "bounds": {"quick": "Parser.ParseContext under a context that turns done at its k-th poll (k symbolic 0..63, both Canceled and DeadlineExceeded, arbitrary start depth 0..49): a 70-token nested statement (CTE, IN list, CASE, nested function calls, JOIN ON, BETWEEN, UNION, EXISTS sub-query), an INSERT ... RETURNING with function calls, and every <= 2-token continuation of SELECT / SELECT a FROM t WHERE over the 45-row expression table; gosqlx.ParseWithContext on 3 texts cancelled at its k-th poll (k = 0..14: wrapper entry, tokenizer, parser) under the pool monitor, and two pooled tokenizers held at once are distinct afterwards; TokenizeContext (poll interval instantiated at 2) on a 9-token input under a cause-carrying context cancelled at its k-th poll, k = 0..7: errors.Is with the context's error, no partial tokens, at most one further poll, uncancelled result equals Tokenize",
                    "thorough": "<= 3-token continuations"},
         "outside": "the real poll interval of TokenizeContext (100 tokens; the harness instantiates the current source at 2 so the polls are reachable); gosqlx.ParseWithContext adds only tokenisation in front of ParseContext",
         "assumptions": ["the context is monotone: once done it stays done with the same error"],
         "runs": parruns(["VxC11_Nested", "VxC11_Returning", "VxC11_Where2", "VxC11_Select2"], ["VxC11_Nested", "VxC11_Returning", "VxC11_Where3", "VxC11_Select3"], ["C11.is_ctx_err", "C11.same_tree", "C11.residue_depth"], extra={"generic": ["pool_double_put"], "engine_only_asserts": ["pool_double_put"]}) + [
+            {"pkg": "pkg/gosqlx", "harness": "VxC11_Wrap", "expect_asserts": ["C11.wrap_distinct_pooled"], "generic": ["pool_double_put"], "engine_only_asserts": ["pool_double_put"]},
             {"pkg": TOK, "harness": "VxC11_Tok", "instantiate": {"file": "pkg/sql/tokenizer/tokenizer.go", "regex": r"len\(tokens\)%100 == 0", "repl": "len(tokens)%2 == 0"}, "expect_asserts": ["C11.tok_is_ctx_err", "C11.tok_no_partial", "C11.tok_same"]}],
     },
     "C12": {
-        "bounds": {"quick": "token soup: every EOF-terminated stream of <= 3 symbolic tokens (150-row table) at statement start and after 'SELECT a FROM t ;' — termination (unwinding budget) and errors-iff-strict-fails; scripts S1;S2 where each Si is one of 8 valid statements (SELECT x2, SHOW - whose first token is not a synchronisation keyword -, DELETE, DROP, TRUNCATE, CREATE TABLE, INSERT) under a symbolic corruption (none / delete / duplicate / replace by one of 12 tokens / truncate, position symbolic), at most one corrupted; twins: the same corrupted statement twice, optionally around a good one: two errors, exactly the good statements, no nil entry",
+        "bounds": {"quick": "token soup: every EOF-terminated stream of <= 3 symbolic tokens (150-row table) at statement start and after 'SELECT a FROM t ;' — termination (unwinding budget) and errors-iff-strict-fails; scripts S1;S2 where each Si is one of 8 valid statements (SELECT x2, SHOW - whose first token is not a synchronisation keyword -, DELETE, DROP, TRUNCATE, CREATE TABLE, INSERT) under a symbolic corruption (none / delete / duplicate / replace by one of 12 tokens / truncate, position symbolic), at most one corrupted; twins: the same corrupted statement twice, optionally around a good one: two errors, exactly the good statements, no nil entry; triples: a good statement, a complete statement followed by stray tokens (6 kinds) and a statement failing at its first token (6 kinds), in 3 orders",
                    "thorough": "<= 4 soup tokens; scripts of 2 statements with both independently corrupted; scripts of 3 statements with one corrupted"},
         "outside": "longer scripts; corruptions that introduce a statement-starting keyword after the first token (excluded by the property itself)",
         "assumptions": ["a statement is 'well-formed' iff strict parsing of it alone (with its terminating semicolon) succeeds with exactly one statement"],
-        "runs": parruns(["VxC12_Soup_Start3", "VxC12_Script2q", "VxC12_Twins"], ["VxC12_Soup_Start4", "VxC12_Soup_Semi4", "VxC12_Script2", "VxC12_Script3q", "VxC12_Soup_Semi3", "VxC12_Twins"], ["C12.iff", "C12.no_loss", "C12.one_error_per_malformed", "C12.exactly_the_good"], generic=["unwind"]),
+        "runs": parruns(["VxC12_Soup_Start3", "VxC12_Script2q", "VxC12_Twins", "VxC12_Triples"], ["VxC12_Soup_Start4", "VxC12_Soup_Semi4", "VxC12_Script2", "VxC12_Script3q", "VxC12_Soup_Semi3", "VxC12_Twins", "VxC12_Triples"], ["C12.iff", "C12.no_loss", "C12.one_error_per_malformed", "C12.exactly_the_good"], generic=["unwind"]),
     },
     "C13": {
-        "bounds": {"quick": "every failing path of the C01 runs (same bounds, including every truncation of the 47-statement corpus): tokenizer errors and low-level parser errors; reproducibility: a reused tokenizer instance reports the same code, message and location as a fresh one (inputs <= 3 bytes over the failing-literal alphabet after 5 earlier texts)", "thorough": "same as C01 thorough"},
+        "bounds": {"quick": "every failing path of the C01 runs (same bounds, including every truncation of the 47-statement corpus): tokenizer errors and low-level parser errors; reproducibility: the same <= 2-token input gives the same code, message and location before and after an unrelated position-tracking parse of another input; a reused tokenizer instance reports the same code, message and location as a fresh one (inputs <= 3 bytes over the failing-literal alphabet after 5 earlier texts)", "thorough": "same as C01 thorough"},
         "outside": "wording of messages and hints; errors of the gosqlx wrappers (checked by C07 harness); reproducibility across Go map iteration order and across parser instance histories (the latter is C08's independence claim)",
         "assumptions": ["documented code families: E1xxx tokenizer, E2xxx parser"],
         "runs": tokruns(["C13.tok_structured", "C13.tok_family"], ["VxC04_All2", "VxC04_Lex3"], ["VxC04_All3", "VxC04_Lex4"]) + parruns(["VxSoup_Start2", "VxSoup_Select2", "VxSoup_From2", "VxSoup_Where2", "VxSoup_Cut0"], ["VxSoup_Cut1", "VxSoup_Start3", "VxSoup_Select3", "VxSoup_From3", "VxSoup_Where3"], ["C13.structured", "C13.family"]) + [
             {"pkg": TOK, "harness": "VxC08_TokReuse3", "tiers": ["quick"], "expect_asserts": ["C13.tok_reproducible", "C13.tok_same_location"]},
-            {"pkg": TOK, "harness": "VxC08_TokReuse4", "tiers": ["thorough"], "expect_asserts": ["C13.tok_reproducible", "C13.tok_same_location"]}],
+            {"pkg": TOK, "harness": "VxC08_TokReuse4", "tiers": ["thorough"], "expect_asserts": ["C13.tok_reproducible", "C13.tok_same_location"]},
+            {"pkg": PAR, "harness": "VxC13_Repeat", "args": {"max-steps": 400000}, "expect_asserts": ["C13.repeat_same_error"], "budget_judged_by": "C01"}],
     },
     "C04": {
         "bounds": {"quick": "all byte strings of length <= 2 over all 256 byte values; length <= 3 over the 24-symbol lexical alphabet; length <= 5 over the comment alphabet {- / * \\n a space}; word slots: 13 first words (the ten multi-word keyword starts in mixed case, an identifier, SELECT, LEFTY) x <= 2 symbolic separator bytes over {space \\n - ,} x 10 second words (BY, JOIN, SETS, OUTER, x, BYE, 1, none) x <= 1 separator byte x 3 third words; keyword table: every entry of the tokenizer's keyword table (all lengths) in upper, lower, alternating and last-letter-lower case, alone and between identifiers, keeps its kind and its spelling",
